@@ -221,6 +221,106 @@ theorem repNodes_kept (ix : Idx) : ∀ (l : List RT), ∀ e ∈ filesList (repNo
       exact ⟨Or.inr h1, h2⟩
 end
 
+/-! #### the blob loop, partially lost files, exact characterisation of the files after repair -/
+
+theorem filter_length_bne {α} (p : α → Bool) : ∀ l : List α,
+    ((l.filter p).length != l.length) = l.any (fun d => !p d)
+  | [] => rfl
+  | a :: l => by
+    have ih := filter_length_bne p l
+    have hle := List.length_filter_le p l
+    by_cases ha : p a = true
+    · simp only [List.filter_cons, ha, if_true, List.length_cons, List.any_cons, Bool.not_true, Bool.false_or, ← ih]
+      by_cases hl : (l.filter p).length = l.length
+      · simp [hl]
+      · simp
+    · have ha' : p a = false := by simpa using ha
+      simp only [List.filter_cons, ha', List.any_cons, Bool.not_false, Bool.true_or, List.length_cons]
+      simp only [Bool.false_eq_true, if_false, bne_iff_ne, ne_eq]
+      omega
+
+/-- the loop from any state: the flag is or-ed, content appended, size added -/
+theorem blobLoop_from (ix : Idx) : ∀ (c : List Nat) (st : Bool × List Nat × Nat),
+    c.foldl (blobStep ix) st =
+      (st.1 || c.any (fun d => !(ix d).isSome), st.2.1 ++ c.filter (fun d => (ix d).isSome),
+        st.2.2 + ((c.filter (fun d => (ix d).isSome)).map (fun d => (ix d).getD 0)).sum)
+  | [], st => by simp
+  | d :: c, st => by
+    rw [List.foldl_cons, blobLoop_from ix c]
+    cases h : ix d with
+    | none => simp [blobStep, h]
+    | some len => simp [blobStep, h, Nat.add_assoc]
+
+/-- the loop as written computes: flag = SOME blob is missing (accumulated over all blobs), content = the indexed
+blobs in order, size = sum of their `data_length`s -/
+theorem blobLoop_spec (ix : Idx) (c : List Nat) :
+    blobLoop ix c = (c.any (fun d => !(ix d).isSome), c.filter (fun d => (ix d).isSome),
+      ((c.filter (fun d => (ix d).isSome)).map (fun d => (ix d).getD 0)).sum) := by
+  simp [blobLoop, blobLoop_from]
+
+/-- `repNode` on a file is the loop of the code -/
+theorem repNode_file_loop (ix : Idx) (n k t s : Nat) (c : List Nat) (sfx : Bool) :
+    repNode ix (.file n k t s c sfx) =
+      (.file n k t (blobLoop ix c).2.2 (blobLoop ix c).2.1 (sfx || (blobLoop ix c).1), (blobLoop ix c).1) := by
+  simp only [repNode, blobLoop_spec, filter_length_bne]
+
+/-- what repair does to one file entry `(path, content, marked)`: keep the indexed chunks in order, mark iff some
+chunk is missing -/
+def repFile (ix : Idx) (e : List Nat × List Nat × Bool) : List Nat × List Nat × Bool :=
+  (e.1, e.2.1.filter (fun d => (ix d).isSome), e.2.2 || e.2.1.any (fun d => !(ix d).isSome))
+
+theorem repFile_of_indexed {ix : Idx} {e : List Nat × List Nat × Bool} (h : Indexed ix e) : repFile ix e = e := by
+  obtain ⟨p, c, m⟩ := e
+  have hall : ∀ d ∈ c, (ix d).isSome = true := h
+  have h1 : c.filter (fun d => (ix d).isSome) = c := List.filter_eq_self.mpr hall
+  have h2 : c.any (fun d => !(ix d).isSome) = false := by
+    simp only [List.any_eq_false, Bool.not_eq_true', Bool.not_eq_false]
+    exact fun d hd => by simpa using hall d hd
+  simp only [repFile, h1, h2, Bool.or_false]
+
+theorem map_repFile_of_indexed {ix : Idx} : ∀ {l : List (List Nat × List Nat × Bool)},
+    (∀ e ∈ l, Indexed ix e) → l.map (repFile ix) = l
+  | [], _ => rfl
+  | e :: l, h => by
+    rw [List.map_cons, repFile_of_indexed (h e (List.mem_cons_self ..)),
+      map_repFile_of_indexed (fun e' he' => h e' (List.mem_cons_of_mem _ he'))]
+
+mutual
+/-- the files visible below a node after repair are exactly the files before, each treated by `repFile` -/
+theorem repNode_files (ix : Idx) : ∀ (x : RT), filesNode (repNode ix x).1 = (filesNode x).map (repFile ix)
+  | .file n k t s c sfx => by
+    simp only [repNode, filesNode, List.map_cons, List.map_nil, repFile, filter_length_bne]
+  | .other n k t => by simp [repNode, filesNode]
+  | .dir n k t st sub => by
+    by_cases hst : st = 0
+    · subst hst
+      simp only [repNode, if_true, filesNode, List.map_map]
+      have hsub : filesList (repList ix sub).1 = (filesList sub).map (repFile ix) := by
+        simp only [repList]
+        split
+        · exact repNodes_files ix sub
+        · rename_i hh
+          have hh' : (repNodes ix sub).2 = false := by simpa using hh
+          exact (map_repFile_of_indexed (repNodes_unchanged_indexed ix sub hh')).symm
+      rw [hsub, List.map_map]
+      rfl
+    · by_cases h3 : st = 3
+      · subst h3; simp [repNode, filesNode, filesList]
+      · simp [repNode, filesNode, filesList, hst, h3]
+theorem repNodes_files (ix : Idx) : ∀ (l : List RT), filesList (repNodes ix l).1 = (filesList l).map (repFile ix)
+  | [] => by simp [repNodes, filesList]
+  | x :: l => by
+    simp only [repNodes, filesList, List.map_append, repNode_files ix x, repNodes_files ix l]
+end
+
+theorem repList_files (ix : Idx) (l : List RT) : filesList (repList ix l).1 = (filesList l).map (repFile ix) := by
+  simp only [repList]
+  split
+  · exact repNodes_files ix l
+  · rename_i hh
+    have hh' : (repNodes ix l).2 = false := by simpa using hh
+    exact (map_repFile_of_indexed (repNodes_unchanged_indexed ix l hh')).symm
+
 /-! ### rewrite -/
 
 mutual
